@@ -48,7 +48,9 @@ CLAIMED.update({
             "field values and the real decoder must return a term denoting exactly that value; one trailing byte must be reported.", E1T),
     "C04": ("E1 kani-cbmc", "9.3 C04", "Bounded model checking of the HandshakeStateMachine API as a transition system: concrete call scripts (quick 14, thorough all "
             "sequences over challenge/reply/ack/disconnect up to length 4) with every message byte, both flag sets, creation and every challenge "
-            "symbolic; Connected only after an ack equal to 'a'++D(our challenge of this handshake, cookie); flags = intersection; emitted layouts.", E1T),
+            "symbolic; Connected only after an ack equal to 'a'++D(our challenge of this handshake, cookie); flags = intersection; emitted layouts. "
+            "E2: the MIR of digest::compute_digest with the hasher as an uninterpreted accumulator: for every u32 challenge the bytes fed to MD5 "
+            "are the cookie followed by the decimal challenge.", E1T + "; MIR->SMT for compute_digest's input string, replayed against an independent MD5"),
     "C05": ("E1 kani-cbmc", "9.3 C05", "read_framed/write_framed futures polled by hand over a harness reader/writer: every composition of the byte stream into reads "
             "(enumerated inside the harness) with symbolic payload bytes returns the messages intact; one-shot and streaming writers agree; "
             "oversize refused before reading, EOF inside a frame is UnexpectedEof.", E1T + " (chunkings enumerated, contents symbolic)"),
